@@ -503,14 +503,15 @@ class WB:
                 connector_port=self.port(cls=ConnectorPort))
         return self._deploy_step
 
-    def job(self, ports: dict, op="copy", name=None, plan_steps=True, out_name="out"):
+    def job(self, ports: dict, op="copy", name=None, plan_steps=True, out_name="out", dirs=None):
         """schedule -> transfer(per input) -> execute; returns the output port."""
         name = name or self._name("job")
         dep = self.deploy_step()
         binding = BindingConfig(targets=[Target(deployment=self.deploy_cfg, workdir=self.workdir)])
         sched = self.wf.create_step(
             PlanScheduleStep if plan_steps else ScheduleStep, name=posixpath.join(name, "__schedule__"),
-            job_prefix=name, connector_ports={"kit": dep.get_output_port()}, binding_config=binding)
+            job_prefix=name, connector_ports={"kit": dep.get_output_port()}, binding_config=binding,
+            **({"input_directory": dirs[0], "output_directory": dirs[1], "tmp_directory": dirs[2]} if dirs else {}))
         ex = self.wf.create_step(ExecuteStep, name=name, job_port=sched.get_output_port())
         ex.command = GateCommand(ex, op=op)
         for k, p in ports.items():
